@@ -24,7 +24,7 @@ def write_cfg(t, path, modes='{"osu", "taiko", "catch", "mania"}'):
     with open(path, "w") as f:
         f.write("CONSTANTS\n  ACC_T = %d\n  Modes = %s\n  MaxN = %d\n  Rich = %s\n  AccGrid = %s\n  BigN = %d\n  DenseGrid = %s\n" % (
             t["acc_t"], modes, t["maxn"], t["rich"], t["grid"], t["bign"], t["dense"]))
-        f.write("INIT Init\nNEXT Next\nINVARIANT Printer\nINVARIANT NoUnderflow\nINVARIANT Idempotent\nINVARIANT ReqInv\nPROPERTY ReqStep\nCHECK_DEADLOCK FALSE\n")
+        f.write("INIT Init\nNEXT Next\nINVARIANT Printer\nINVARIANT NoUnderflow\nINVARIANT Idempotent\nINVARIANT ReqInv\nINVARIANT ApaAgrees\nPROPERTY ReqStep\nCHECK_DEADLOCK FALSE\n")
 
 
 def run(prop, tier):
@@ -34,13 +34,24 @@ def run(prop, tier):
     pid = os.getpid()
     cfgp = os.path.join(common.OUT, "MC_ScoreGen_%s_%d.cfg" % (tier, pid))
     write_cfg(t, cfgp)
-    r = common.run_tlc("MC_ScoreGen", cfgp, workers=6 if tier == "quick" else 14, timeout=900 if tier == "quick" else 14400,
+    r = common.run_tlc("MC_ApaAgree", cfgp, workers=6 if tier == "quick" else 14, timeout=900 if tier == "quick" else 14400,
                        name="MC_ScoreGen_%s_%s" % (prop, tier), xmx="12g")
     res.add_tlc(r)
     if not r["ok"]:
         res.violation("TLC: the transcription of generate_state violates %s on the model (see %s)" % (
             r["violated"] or "a property", r["log"]), {"kind": "tlc", "log_tail": common.tail_nonreplay(r["text"], 80)})
         return res.finish()
+    if prop == "C12":
+        # unbounded counts: Apalache shows the requirements for ALL non-negative counts / provided values on the flat modules
+        # that the TLC run above (invariant ApaAgrees) ties to the transcription the replay compares with the real code
+        apa = {}
+        for module in ("ApaScoreStd", "ApaScoreCatch"):
+            a = common.run_apalache(module, "Req", length=0, timeout=1800, name="%s_%s" % (module, tier))
+            apa[module] = {"outcome": "NoError" if a["ok"] else "Error", "seconds": round(a["wall"], 1)}
+            if not a["ok"]:
+                res.violation("Apalache: the C12 requirements fail for some counts on %s (unbounded integers)" % module,
+                              {"kind": "apalache", "module": module, "log_tail": a["text"][-3000:]})
+        res.cov["apalache_unbounded"] = apa
     scen = os.path.join(common.OUT, "scoregen_%s_%s_%d.ndjson" % (prop, tier, pid))
     n = common.extract_replay(r["log"], scen)
     os.remove(r["log"])
@@ -132,6 +143,7 @@ def run(prop, tier):
         res.cov["canary_rejected"] = 1
         os.remove(cpath)
     res.assumptions += [
+        "C12 requirements of the no-accuracy branches for unbounded counts: Apalache (SMT, no bound on the integers) on ApaScoreStd / ApaScoreCatch, flat copies of the transcription that TLC proves equal to it on every bounded case (invariant ApaAgrees); u32 wrap-around above 2^32 is outside the model",
         "exhaustive over the enumerated shapes (<= %d objects; accuracy-only family <= %d objects), provided-value sets and accuracy grids of the tier" % (t["maxn"], t["bign"]),
         "integer branches: real result must equal the TLA+ transcription exactly; accuracy branches: requirement predicates and exact-rational optimality evaluated by TLC on the real result",
         "accuracy targets are k/%d; non-tie distances differ by >= 1/(den*T) >> ulp, ties are in the argmin set" % t["acc_t"],
